@@ -327,3 +327,147 @@ def product(**axes):
     keys = list(axes)
     for vals in itertools.product(*(axes[k] for k in keys)):
         yield dict(zip(keys, vals))
+
+
+# --- explicit-state search (state hashing): every schedule with ANY number of deviations of the given kinds ---------------
+def _canon_digest(w) -> bytes:
+    import hashlib
+
+    return hashlib.blake2b(repr(Q.canon(w)).encode(), digest_size=16).digest()
+
+
+def _bfs_expand(args):
+    """Rebuild the state reached by history h (a fresh real world, the script replayed) and take every enabled action from it."""
+    pid, params, h = args
+    import warnings
+
+    warnings.filterwarnings("ignore", category=RuntimeWarning)  # (worlds are abandoned in mid-flight: 'coroutine was never awaited')
+    logcap.install()
+    out = []
+    w, acts = Q.run_script(params, h)
+    Q.finish_script(w, False)
+    for lab, _c in acts or ():
+        h2 = tuple(h) + (tuple(lab),)
+        w2, a2 = Q.run_script(params, h2)
+        dig = _canon_digest(w2)
+        terminal = a2 is None
+        obs = Q.finish_script(w2, terminal)
+        viol = []
+        if terminal:
+            viol = ORACLES[pid](obs, params)
+        else:  # in flight: nothing may have gone wrong so far
+            for e in obs["loop_exc"]:
+                viol.append((f"{pid}:loop-exception:{e[0]}:{e[2]}:{sig(e[1])}", f"unhandled in event loop: {e}"))
+            for r in obs["log_exc"]:
+                if r[1] == "AssertionError":
+                    viol.append((f"{pid}:assert-tripped:{r[3]}:{sig(r[2])}", f"internal check tripped (logged): {r}"))
+            if obs["deadlock"]:
+                viol.append((f"{pid}:deadlock", obs["deadlock"]))
+            if obs["cap_hit"]:
+                viol.append((f"{pid}:livelock", "step cap"))
+        summary = None
+        if terminal:
+            summary = (obs["final"]["state"], tuple(None if c is None else (c["res"][0] if c["res"] else None) for c in obs["callers"]), obs["probe"]["res"][0] if obs.get("probe") else None)
+        out.append((h2, dig, terminal, viol, summary))
+    return out
+
+
+def _bfs_audit(args):
+    """Two histories that were merged (same canonical state): run both on with the default schedule - same outcome?"""
+    params, h1, h2 = args
+    import warnings
+
+    warnings.filterwarnings("ignore", category=RuntimeWarning)
+    logcap.install()
+    res = []
+    for h in (h1, h2):
+        hh = tuple(h)
+        for _ in range(400):
+            w, acts = Q.run_script(params, hh)
+            if acts is None:
+                obs = Q.finish_script(w, True)
+                res.append((obs["final"], [None if c is None else (c["res"][0] if c["res"] else None) for c in obs["callers"]], obs["probe"]["res"][0] if obs.get("probe") else None, len(obs["writes"]) - sum(1 for x in hh if x[0] == "zz")))
+                break
+            Q.finish_script(w, False)
+            hh = hh + (tuple(acts[0][0]),)
+        else:
+            res.append("no-end")
+    a, b = res
+    same = a != "no-end" and b != "no-end" and a[:3] == b[:3]
+    return same, (h1, h2, a, b)
+
+
+def bfs(ctx, pid: str, scenarios: list[dict], max_states: int = 400_000, audit_every: int = 97):
+    """Level-synchronous parallel BFS of each scenario's state graph; states = canonical forms (mc.qosworld.canon) of the real
+    world between two actions; a state is expanded by replaying its history on a fresh real PortProtocol/ProtocolContext."""
+    import collections
+    import warnings
+
+    warnings.filterwarnings("ignore", category=RuntimeWarning)
+    logcap.install()
+    tot = collections.Counter()
+    viols: dict = {}
+    outcomes: set = set()
+    audits = bad_audits = 0
+    per = []
+    with mp.get_context("fork").Pool(X.ncpu()) as pool:
+        for p in scenarios:
+            seen: dict = {}
+            frontier = [()]
+            w, acts = Q.run_script(p, ())
+            seen[_canon_digest(w)] = ()
+            Q.finish_script(w, False)
+            depth = states = trans = term = 0
+            capped = False
+            merges = []
+            while frontier:
+                depth += 1
+                nxt = []
+                for out in pool.imap_unordered(_bfs_expand, [(pid, p, h) for h in frontier], chunksize=4):
+                    for h2, dig, terminal, viol, summary in out:
+                        trans += 1
+                        for k, what in viol:
+                            e = viols.setdefault(k, {"what": what, "replay": {"world": "qos-bfs", "params": p, "hist": [list(x) for x in h2]}, "count": 0})
+                            e["count"] += 1
+                        if summary is not None:
+                            outcomes.add(summary)
+                        if dig in seen:
+                            if (trans % audit_every) == 0 and not terminal and seen[dig] != h2:
+                                merges.append((p, seen[dig], h2))
+                            continue
+                        seen[dig] = h2
+                        if terminal:
+                            term += 1
+                        elif not viol:
+                            nxt.append(h2)
+                if len(seen) > max_states:
+                    capped = True
+                    break
+                frontier = nxt
+            for same, info in pool.imap_unordered(_bfs_audit, merges[:200], chunksize=2):
+                audits += 1
+                if not same:
+                    bad_audits += 1
+                    viols.setdefault(f"{pid}:HARNESS:merged-states-differ", {"what": f"two histories with the same canonical state end differently under the default schedule: {info}"[:900], "replay": {"world": "qos-bfs", "params": p, "hist": [list(x) for x in info[1]]}, "count": 0})["count"] += 1
+            tot.update(states=len(seen), transitions=trans, terminal=term, capped=int(capped))
+            per.append({"dev": list(p["dev"]), "callers": [c["cmd"] + "/" + str(c["timeout"]) for c in p["callers"]], "max_held": p.get("max_held"), "states": len(seen), "transitions": trans, "terminal_states": term, "depth": depth, "complete": not capped})
+    return tot, viols, per, len(outcomes), audits, bad_audits
+
+
+def bfs_replay(pid: str, rep: dict):
+    logcap.install()
+    h = tuple(tuple(x) for x in rep["hist"])
+    w, acts = Q.run_script(rep["params"], h)
+    terminal = acts is None
+    obs = Q.finish_script(w, terminal)
+    if terminal:
+        return ORACLES[pid](obs, rep["params"])
+    v = []
+    for e in obs["loop_exc"]:
+        v.append((f"{pid}:loop-exception:{e[0]}:{e[2]}:{sig(e[1])}", f"unhandled in event loop: {e}"))
+    for r in obs["log_exc"]:
+        if r[1] == "AssertionError":
+            v.append((f"{pid}:assert-tripped:{r[3]}:{sig(r[2])}", f"internal check tripped (logged): {r}"))
+    if obs["deadlock"]:
+        v.append((f"{pid}:deadlock", obs["deadlock"]))
+    return v
